@@ -470,19 +470,69 @@ occurs in the input. -/
 def acContains (pats : List Str) (input : Str) : Bool :=
   pats.any fun p => !p.isEmpty && isInfix p (input.map acNorm)
 
+/-! ### the Aho-Corasick automaton of `github.com/v2rayA/ahocorasick-domain`
+
+A trie node is identified by its path from the root (the library stores exactly that in `node.b`);
+the root is `[]`.  `findBlice(s) != nil` = `s` is the root or a prefix of some dictionary word.
+Symbols are the input bytes after the library's table (`acNorm`). -/
+
+/-- `findBlice(s) != nil` for a non-empty `s`: some dictionary word starts with `s` -/
+def acIsNode (dict : List Str) (s : Str) : Bool := dict.any fun w => s.isPrefixOf w
+
+/-- `n.child[c]` -/
+def acChild (dict : List Str) (n : Str) (c : Nat) : Option Str :=
+  if acIsNode dict (n ++ [c]) then some (n ++ [c]) else none
+
+/-- `node.output` -/
+def acOutput (dict : List Str) (n : Str) : Bool := dict.contains n
+
+/-- the first (= longest) non-empty suffix of `t` satisfying `q`, `[]` (the root) if there is none:
+the loops `for j := 1; j < len(c.b); j++ { … findBlice(c.b[j:]) … break }` run over `t = c.b[1:]` -/
+def longestSuffix (q : Str → Bool) : Str → Str
+  | [] => []
+  | c :: t => if q (c :: t) then c :: t else longestSuffix q t
+
+/-- `node.fail`: the longest proper suffix that is a node, else the root -/
+def acFail (dict : List Str) (n : Str) : Str := longestSuffix (acIsNode dict) n.tail
+
+/-- `node.suffix`: the longest proper suffix that is a dictionary word, else the root -/
+def acSuffix (dict : List Str) (n : Str) : Str := longestSuffix (acOutput dict) n.tail
+
+/-- `node.fails[c]`: `for n.child[c] == nil && !n.root { n = n.fail }` -/
+def acFails (dict : List Str) (c : Nat) : Nat → Str → Str
+  | 0, n => n
+  | fuel + 1, n => if (acChild dict n c).isNone && !n.isEmpty then acFails dict c fuel (acFail dict n) else n
+
+/-- one iteration of the `Contains` loop: new state and whether it returns `true` here -/
+def acStep (dict : List Str) (n : Str) (c : Nat) : Str × Bool :=
+  let n0 := if n.isEmpty then n else acFails dict c (n.length + 1) n
+  match acChild dict n0 c with
+  | some f => (f, acOutput dict f || !(acSuffix dict f).isEmpty)
+  | none => (n0, false)
+
+def acRun (dict : List Str) : Str → Str → Bool
+  | [], _ => false
+  | c :: rest, n =>
+    let r := acStep dict n c
+    if r.2 then true else acRun dict rest r.1
+
+/-- `NewMatcher(dict).Contains(input)` through the automaton -/
+def acAuto (dict : List Str) (input : Str) : Bool := acRun dict (input.map acNorm) []
+
 /-- `strings.ToLower(strings.TrimSuffix(domain, "."))` -/
 def normName (name : Str) : Str := lower (trimSuffixByte cDot name)
 
 /-- the trie query word `ToSuffixTrieString("^" + domain)` -/
 def trieQuery (dom : Str) : Str := toSuffixTrieString (cHat :: dom)
 
-/-- One bit of `MatchDomainBitmap` (bit-exact path; `none` = panic inside `HasPrefix`).
+/-- One bit of `MatchDomainBitmap` (bit-exact path: packed trie, Aho-Corasick automaton; `none` = panic
+inside `HasPrefix`).
 `rxHits` = numbers of the regex patterns Go's `regexp` matches against the normalised name. -/
 def BuiltSet.matches (bs : BuiltSet) (dom : Str) (rxHits : List Nat) : Option Bool := do
   let t ← match bs.trie with
     | none => some false
     | some t => t.hasPrefix (trieQuery dom)
-  some (t || acContains bs.ac (cHat :: dom ++ [cDollar]) || bs.rx.any rxHits.contains)
+  some (t || acAuto bs.ac (cHat :: dom ++ [cDollar]) || bs.rx.any rxHits.contains)
 
 /-- the same with the trie replaced by its contract -/
 def BuiltSet.matchesSpec (bs : BuiltSet) (dom : Str) (rxHits : List Nat) : Bool :=
